@@ -18,6 +18,7 @@ func (p *parser) parseFile() {
 
 	// X64 强制采用 intel 语法
 	if p.cpu == abi.X64Unix || p.cpu == abi.X64Windows {
+	Prologue:
 		for {
 			if p.err != nil {
 				return
@@ -38,6 +39,10 @@ func (p *parser) parseFile() {
 				}
 				p.acceptToken(token.GAS_X64_INTEL_SYNTAX)
 				p.acceptToken(token.GAS_X64_NOPREFIX)
+
+			default:
+				// the first token of the code proper ends the prologue
+				break Prologue
 			}
 		}
 		if p.prog.IntelSyntax == nil {
